@@ -856,13 +856,19 @@ class GenFunctions(object):
         # Create additional functions needed for wrapping
         ordered_functions = []
         for method in functions:
-            if method.template_arguments and method._has_default_arg:
+            if (method.template_arguments or method.have_template_args) \
+               and method._has_default_arg:
                 # Instantiate first, then create the default-argument
                 # variants of each instantiation.
                 ordered_functions.append(method)
-                method._overloaded = True
                 clones = []
-                self.template_function(method, clones)
+                if method.template_arguments:
+                    method._overloaded = True
+                    self.template_function(method, clones)
+                else:
+                    # A member of a class template which uses the
+                    # template parameter.
+                    self.template_function2(method, clones)
                 for clone in clones:
                     variants = []
                     self.has_default_args(clone, variants)
